@@ -93,7 +93,9 @@ def r3_unknown_filtered(cx):
         lp = enclosing(pops[0], ast.For)
         ok = lp is not None and U(lp.iter) == "unknown_opts" and U(pops[0].args[0]) == U(lp.target) and not guard_texts(pops[0], stop=lp) and not has_exit(lp.body) \
             and syn_dominates(lp, upd[0]) and not guard_texts(lp) and U(upd[0].args[0]) == d \
-            and not [a for a in assigns_to(fn, d) + assigns_to(fn, "unknown_opts") if un and a.lineno > un[0].lineno]
+            and not [a for a in assigns_to(fn, d) + assigns_to(fn, "unknown_opts") if un and a.lineno > un[0].lineno] \
+            and not [c for c in find_calls(fn.body) if isinstance(c.func, ast.Attribute) and U(c.func.value) == "unknown_opts"
+                     and c.func.attr in ("difference_update", "intersection_update", "discard", "remove", "pop", "clear", "symmetric_difference_update")]
     cx.require(ok, pops[0] if pops else fn, "every unknown key is removed before the instance dict is updated, unconditionally",
                construct="for u in unknown_opts: dict_.pop(u, None) ; self.__dict__.update(dict_)")
     flt = [a for a in fn.body if isinstance(a, ast.Assign) and U(a.targets[0]) == d]
@@ -133,6 +135,44 @@ def r4_coercion(cx):
                 bad_store = a
     ok = convs == {"retries": set(["int"]), "cmd_timeout": set(["int"]), "http_timeout": set(["float"])} and bad_store is None
     cx.require(ok, bad_store if bad_store is not None else env, "environment: retries, cmd_timeout -> int, http_timeout -> float", construct="%s" % sorted((k, sorted(v)) for k, v in convs.items()))
+    # environment booleans: 'true' -> True, 'false' -> False (the constant, not merely something falsy-then-replaced), anything else unchanged
+    bf = [n for n in ast.walk(env) if isinstance(n, FUNC_TYPES) and n.name == "_boolify"]
+    okb = False
+    seen_ = []
+    if bf:
+        bp = params(bf[0])[0]
+        rets_ = [r for r in walk_body(bf[0].body) if isinstance(r, ast.Return) and r.value is not None]
+        cases_ = {}
+        for r in rets_:
+            g_ = set(guard_texts(r))
+            seen_.append("%s under %s" % (U(r.value), sorted(g_)))
+            if U(r.value) == "True" and ("%s.lower() == 'true'" % bp, True) in g_:
+                cases_["true"] = True
+            elif U(r.value) == "False" and ("%s.lower() == 'false'" % bp, True) in g_:
+                cases_["false"] = True
+            elif U(r.value) == bp:
+                cases_["other"] = True
+            else:
+                cases_["bad"] = True
+        # a lowered temporary (lowered = v.lower()) is the same test
+        if set(cases_) != set(["true", "false", "other"]):
+            low = [a for a in walk_body(bf[0].body) if isinstance(a, ast.Assign) and U(a.value) == "%s.lower()" % bp and isinstance(a.targets[0], ast.Name)]
+            if len(low) == 1:
+                ln = low[0].targets[0].id
+                cases_ = {}
+                for r in rets_:
+                    g_ = set(guard_texts(r))
+                    if U(r.value) == "True" and ("%s == 'true'" % ln, True) in g_:
+                        cases_["true"] = True
+                    elif U(r.value) == "False" and ("%s == 'false'" % ln, True) in g_:
+                        cases_["false"] = True
+                    elif U(r.value) == bp:
+                        cases_["other"] = True
+                    else:
+                        cases_["bad"] = True
+        okb = set(cases_) == set(["true", "false", "other"])
+    cx.require(okb, bf[0] if bf else env, "environment booleans: 'true' gives True, 'false' gives the constant False, anything else is kept (a value that can switch an option OFF)",
+               construct="; ".join(seen_) or "(no _boolify)")
     fl = m.func("InsightsConfig._load_config_file", "C16.R4")
     # the file layer must hand values over as written: a parser class with %-interpolation rejects (and thereby drops the whole file on) any value with a bare '%'
     ctors = [x for x in ast.walk(fl) if isinstance(x, ast.Call) and U(x.func).split(".")[-1] in ("RawConfigParser", "ConfigParser", "SafeConfigParser")]
